@@ -3,6 +3,8 @@
 EXTENDS Formak
 SensShapes == {<<1>>, <<2>>, <<3>>, <<4>>, <<1, 2>>, <<2, 1>>, <<2, 2>>, <<1, 3>>, <<1, 1, 2>>, <<1, 1, 1, 1>>, <<2, 4>>}
 cShapes == {[nS |-> a, nC |-> b, nK |-> c, sens |-> s] : a \in 1..4, b \in 0..2, c \in 0..2, s \in SensShapes}
+\* two calibration terms always (layout of the calibration vector inside sensor models and sensor Jacobians)
+cShapesCal == {[nS |-> a, nC |-> b, nK |-> 2, sens |-> s] : a \in 1..2, b \in 0..1, s \in {<<2>>, <<1, 2>>, <<3>>}}
 cShapesNoSens == {[nS |-> a, nC |-> b, nK |-> c, sens |-> <<>>] : a \in 1..4, b \in 0..3, c \in 0..2}
 cShapesAll == cShapes \cup cShapesNoSens
 cShapesC12 == {[nS |-> a, nC |-> b, nK |-> c, sens |-> s] : a \in 1..2, b \in 0..2, c \in 0..1, s \in {<<>>, <<2>>, <<1, 2>>, <<1, 1, 2>>}}
